@@ -24,6 +24,7 @@ pub fn world() -> MemDb {
     db.deploy(contract(24), kit::relay(pc_addr(PC_READ_WRITE_READ), kit::CallKind::Call, false, true));
     db.deploy(contract(25), kit::relay(pc_addr(PC_WRITE_ERR_TO_FATAL), kit::CallKind::StaticCall, false, true));
     db.deploy(contract(26), kit::relay(pc_addr(PC_WRITE_THEN_HALT), kit::CallKind::Call, false, true));
+    db.deploy(contract(27), kit::relay(pc_addr(PC_SET_BALANCE), kit::CallKind::StaticCall, false, true));
     db
 }
 
@@ -53,6 +54,8 @@ pub fn templates() -> Vec<Template> {
         tpl("relay.call(pc.write-halt(S,1,56,halt))(e0)", eoa(0), &["S.1", "S.bal"], move |n| call(eoa(0), n, contract(26), &[word_addr(s), word(1), word(56), word(1)])),
         tpl("pc.write-halt(S,1,57,ok)(e2)", eoa(2), &["S.1", "S.bal"], move |n| call(eoa(2), n, pc_addr(PC_WRITE_THEN_HALT), &[word_addr(s), word(1), word(57), word(0)])),
         tpl("pc.read-halt(S,1)(e3)", eoa(3), &["S.1", "S.bal"], move |n| call(eoa(3), n, pc_addr(PC_READ_ERR_TO_HALT), &[word_addr(s), word(1)])),
+        // a static context whose first (and only) mutation is a balance change
+        tpl("relay.static(pc.setbal(S,4321))(e1)", eoa(1), &["S.bal"], move |n| call(eoa(1), n, contract(27), &[word_addr(s), word(4321)])),
     ]
 }
 
